@@ -2,7 +2,6 @@ package main
 
 import (
 	"fmt"
-	"go/token"
 	"strings"
 
 	"golang.org/x/tools/go/ssa"
@@ -52,10 +51,8 @@ func runC15(c *Ctx) {
 	if catch == nil || count == nil || getMax == nil || pushBack == nil {
 		c.undecided(rule1, "Collect: Count/GetMax/Catch/PushBack", p.Pos(collect.Pos()), "one of the calls was not found")
 	} else {
-		// false edge of  capacity <= cnt  (cnt >= capacity)
-		gate := condEdges(collect, false, func(a Atom) bool {
-			return a.Op == token.LEQ && strip(a.X) == ssa.Value(getMax) && strip(a.Y) == ssa.Value(count)
-		})
+		// edges on which  Count() < GetMax()  is known (any source form)
+		gate := cmpEdges(collect, "<", func(v ssa.Value) bool { return strip(v) == ssa.Value(count) }, func(v ssa.Value) bool { return strip(v) == ssa.Value(getMax) })
 		path := reachableWithout(collect, catch, gate)
 		c.check(len(gate) > 0 && path == nil, rule1, "Collect reaches Tongue.Catch only when Count() < GetMax()", p.instrPos(catch), "false edge of cnt >= capacity",
 			"the rendezvous is reachable without the count having been found strictly below the maximum (gate missing, weakened or computed on other values)", p.pathString(path)...)
